@@ -324,28 +324,60 @@ def priv_path(k):
 
 
 def sign_sequence(rng, res, d):
-    """sign (replace) / append / verify through in_toto_sign.main on a layout."""
+    """sign (replace) / append / verify through in_toto_sign.main on a layout (signed in place or to --output) or a
+    link (written to <name>.<keyid8>.link in the working directory).  Signature list and output path are the Lean
+    `signKeyids` / `signOutPath`; the harness keeps its own account as the oracle."""
     from in_toto.models.layout import Layout
+    from in_toto.models.link import Link
     from in_toto.models.metadata import Metablock, Envelope
     pool = W.pool()
     keys = rng.sample(pool, 3)
-    obj = Layout(**rand_layout_kwargs(rng))
+    is_link = rng.random() < 0.3
+    obj = Link(**rand_link_payload(rng)) if is_link else Layout(**rand_layout_kwargs(rng))
+    if is_link:
+        obj.name = "st%d" % rng.randrange(100)
     dsse = rng.random() < 0.5
     md = Envelope.from_signable(obj) if dsse else Metablock(signed=obj)
-    path = os.path.join(d, "seq-%d.layout" % rng.randrange(10**6))
+    sub = os.path.join(d, "seq-%d" % rng.randrange(10**6))
+    os.makedirs(sub)
+    path = os.path.join(sub, "in.link" if is_link else "root.layout")
     md.dump(path)
-    present = []          # model of the signature list: key ids in order
+    present = []          # the harness's own account of the signature list: key ids in order
     ops = []
-    for _ in range(rng.randrange(1, 5)):
-        ks = rng.sample(keys, rng.randrange(1, 3))
-        append = rng.random() < 0.5
-        argv = ["-f", path, "-k"] + [priv_path(k) for k in ks] + (["-a"] if append else [])
-        st, _o, _e = cli.run_main("in_toto_sign", argv)
-        ops.append({"op": "append" if append else "sign", "keys": [k.keyid[:8] for k in ks], "status": st})
-        if st != 0:
-            res.fail("oracle", {"op": "sign_sequence", "ops": ops}, {"why": "in-toto-sign failed to sign", "status": st})
-            return
-        present = (present if append else []) + [k.keyid for k in ks]
+    cwd = os.getcwd()
+    try:
+        os.chdir(sub)
+        for _ in range(1 if is_link else rng.randrange(1, 5)):
+            ks = rng.sample(keys, 1 if is_link else rng.randrange(1, 3))
+            append = (not is_link) and rng.random() < 0.5
+            out_opt = os.path.join(sub, "out-%d" % len(ops)) if rng.random() < 0.2 else None
+            argv = ["-f", path, "-k"] + [priv_path(k) for k in ks] + (["-a"] if append else []) + (["-o", out_opt] if out_opt else [])
+            st, _o, _e = cli.run_main("in_toto_sign", argv)
+            ops.append({"op": "append" if append else "sign", "keys": [k.keyid[:8] for k in ks], "status": st, "output": bool(out_opt)})
+            if st != 0:
+                res.fail("oracle", {"op": "sign_sequence", "ops": ops}, {"why": "in-toto-sign failed to sign", "status": st})
+                return
+            m = core.driver().call({"op": "sign_ops", "append": append, "present": present, "given": [k.keyid for k in ks],
+                                    "output": out_opt, "file": path, "link_name": obj.name if is_link else None})["ok"]
+            present = (present if append else []) + [k.keyid for k in ks]
+            exp_path = out_opt or (os.path.join(sub, "%s.%s.link" % (obj.name, ks[-1].keyid[:8])) if is_link else path)
+            mpath = m["path"] if m["path"] is None or os.path.isabs(m["path"]) else os.path.join(sub, m["path"])
+            ok_path = os.path.exists(exp_path)
+            file_ids = [s_["keyid"] for s_ in json.load(open(exp_path, encoding="utf8"))["signatures"]] if ok_path else None
+            agreed_op = mpath == exp_path and m["keyids"] == file_ids
+            res.case({"sign_op": ops[-1], "kind": "link" if is_link else "layout", "dsse": dsse, "written_to": os.path.basename(exp_path)},
+                     True, agreed_op, sample_cap=1)
+            if not agreed_op:
+                res.fail("disagree", {"op": "sign_sequence", "ops": ops, "dsse": dsse},
+                         {"op": "sign_ops", "impl": {"file_exists": ok_path, "keyids": file_ids, "path": exp_path}, "model": m})
+            if not ok_path or file_ids != present:
+                res.fail("oracle", {"op": "sign_sequence", "ops": ops, "dsse": dsse},
+                         {"why": "in-toto-sign did not write the signatures of exactly the given keys (replacing / appending) to "
+                                 "the documented place", "expected_file": exp_path, "exists": ok_path, "keyids": file_ids, "expected": present})
+                return
+            path = exp_path
+    finally:
+        os.chdir(cwd)
     content = json.load(open(path, encoding="utf8"))
     file_ids = [s["keyid"] for s in content["signatures"]]
     agreed = file_ids == present
